@@ -30,6 +30,7 @@ func init() {
 			{ID: "C11.7", Desc: "single-valued: Set, not Add", Run: ruleC11_7, MinSites: 2},
 			{ID: "C11.8", Desc: "the status is applied after every other header write of the exchange", Run: ruleC11_8, MinSites: 3},
 			{ID: "C11.9", Desc: "a missing or invalid Date is repaired for every origin response, with the UTC time (the Age emitted later is computed from it)", Run: func(c *Ctx) { ruleDateRepair(c, "C11.9") }, MinSites: 1},
+			{ID: "C11.10", Desc: "the Age value is the first member of the field", Run: func(c *Ctx) { ruleAgeFirstMember(c, "C11.10") }, MinSites: 1},
 		},
 	})
 }
